@@ -20,6 +20,7 @@ import (
 	"github.com/hyperledger/fabric-chaincode-go/shim"
 	"github.com/hyperledger/fabric-protos-go/peer"
 	"go.opentelemetry.io/otel/attribute"
+	"go.opentelemetry.io/otel/baggage"
 	"go.opentelemetry.io/otel/codes"
 	"go.opentelemetry.io/otel/propagation"
 )
@@ -68,7 +69,7 @@ func (cc *Chaincode) saveToBatch(
 		for _, k := range keys {
 			pairs = append(pairs, &proto.Pair{
 				Key:   k,
-				Value: carrier.Get(k),
+				Value: canonicalCarrierValue(k, carrier.Get(k)),
 			})
 		}
 		pending.Pairs = pairs
@@ -81,6 +82,26 @@ func (cc *Chaincode) saveToBatch(
 	}
 
 	return stub.PutState(key, data)
+}
+
+// canonicalCarrierValue makes a carrier value stored in the preimage independent of in-process
+// map iteration order: the baggage propagator serialises its members in map order, so two peers
+// simulating the same proposal would otherwise write different bytes.
+func canonicalCarrierValue(key, value string) string {
+	if key != "baggage" {
+		return value
+	}
+	b, err := baggage.Parse(value)
+	if err != nil {
+		return value
+	}
+	members := b.Members()
+	sort.Slice(members, func(i, j int) bool { return members[i].Key() < members[j].Key() })
+	parts := make([]string, 0, len(members))
+	for _, m := range members {
+		parts = append(parts, m.String())
+	}
+	return strings.Join(parts, ",")
 }
 
 func (cc *Chaincode) loadFromBatch(
